@@ -963,7 +963,7 @@ def fieldMetaOk (f : FieldMeta) : Bool :=
    | .modes s => modesOk s
    | _ => true) &&
   (!f.deferDefault || f.hasDefault) &&
-  !f.aliases.contains f.name
+  !f.aliases.contains f.name && strDistinct f.deps
 
 def metaOk (m : RuleMeta) (own : String) : Bool :=
   match m.primitive with
